@@ -218,8 +218,9 @@ func TestPropOneClientPerNode(t *testing.T) {
 				t.Fatalf("write %s: %q %v\nhistory: %v", subj, r, err, hist)
 			}
 		}
+		origin := "h" // who writes: anybody, or (for child changes) the managed node itself
 		place := func(id, parent, typ string) {
-			send(id, parent, data.Points{{Type: data.PointTypeTombstone, Value: 0, Time: tick(), Origin: "h"}, {Type: data.PointTypeNodeType, Text: typ, Origin: "h"}})
+			send(id, parent, data.Points{{Type: data.PointTypeTombstone, Value: 0, Time: tick(), Origin: origin}, {Type: data.PointTypeNodeType, Text: typ, Origin: origin}})
 			if w.nodes[id] == nil {
 				w.nodes[id] = &mnode{typ: typ}
 			}
@@ -235,7 +236,7 @@ func TestPropOneClientPerNode(t *testing.T) {
 			if del {
 				v = 1
 			}
-			send(e.id, e.parent, data.Points{{Type: data.PointTypeTombstone, Value: v, Time: tick(), Origin: "h"}})
+			send(e.id, e.parent, data.Points{{Type: data.PointTypeTombstone, Value: v, Time: tick(), Origin: origin}})
 			e.deleted = del
 			hist = append(hist, fmt.Sprintf("deleted=%v %s>%s", del, e.parent, e.id))
 		}
@@ -417,7 +418,12 @@ func TestPropOneClientPerNode(t *testing.T) {
 				id := fmt.Sprintf("k%d", len(ofType("probeKid")))
 				parent := rapid.SampledFrom(ps).Draw(t, "probe")
 				running := len(w.expected())
+				if rapid.Bool().Draw(t, "writtenByTheNodeItself") {
+					origin = parent
+					flags["childChangeWithOwnOrigin"] = true
+				}
 				place(id, parent, "probeKid")
+				origin = "h"
 				if running >= 2 {
 					flags["childChangeWith>=2Clients"] = true
 				}
@@ -434,7 +440,13 @@ func TestPropOneClientPerNode(t *testing.T) {
 				if len(w.expected()) >= 2 {
 					flags["childChangeWith>=2Clients"] = true
 				}
-				setDeleted(cands[rapid.IntRange(0, len(cands)-1).Draw(t, "kid")], true)
+				ke := cands[rapid.IntRange(0, len(cands)-1).Draw(t, "kid")]
+				if rapid.Bool().Draw(t, "writtenByTheNodeItself") {
+					origin = ke.parent
+					flags["childChangeWithOwnOrigin"] = true
+				}
+				setDeleted(ke, true)
+				origin = "h"
 			case "kidDuringConstruct":
 				// a new probe whose constructor -- called by the manager after it
 				// has read the node's children and before it subscribes to the
@@ -447,13 +459,26 @@ func TestPropOneClientPerNode(t *testing.T) {
 				parent := rapid.SampledFrom(containers()).Draw(t, "parent")
 				kid := fmt.Sprintf("k%d", len(ofType("probeKid")))
 				key := parent + ">" + id
-				ts := tick()
+				// swap: the node already has a child, which is removed in the window
+				// while another one is added (the number of children stays the same)
+				swap := rapid.Bool().Draw(t, "swapChild")
+				oldKid := fmt.Sprintf("k%d", len(ofType("probeKid"))+1)
+				if swap {
+					place(oldKid, id, "probeKid")
+				}
+				ts, ts2 := tick(), tick()
 				var hookErr string
 				rec.mu.Lock()
 				rec.atConstruct[key] = func() {
 					r, err := fix.Write(in.NC, "p."+kid+"."+id, data.Points{{Type: data.PointTypeTombstone, Value: 0, Time: ts, Origin: "h"}, {Type: data.PointTypeNodeType, Text: "probeKid", Origin: "h"}})
 					if err != nil || r != "" {
 						hookErr = fmt.Sprintf("%q %v", r, err)
+					}
+					if swap {
+						r, err := fix.Write(in.NC, "p."+oldKid+"."+id, data.Points{{Type: data.PointTypeTombstone, Value: 1, Time: ts2, Origin: "h"}})
+						if err != nil || r != "" {
+							hookErr = fmt.Sprintf("%q %v", r, err)
+						}
 					}
 				}
 				rec.mu.Unlock()
@@ -491,6 +516,11 @@ func TestPropOneClientPerNode(t *testing.T) {
 				w.nodes[kid] = &mnode{typ: "probeKid"}
 				w.edges = append(w.edges, &medge{parent: id, id: kid})
 				hist = append(hist, fmt.Sprintf("place %s(probeKid) under %s from inside the constructor of %s", kid, id, key))
+				if swap {
+					w.edge(id, oldKid).deleted = true
+					hist = append(hist, fmt.Sprintf("deleted=true %s>%s from inside the same constructor", id, oldKid))
+					flags["childSwappedDuringConstruct"] = true
+				}
 				flags["childDuringConstruct"] = true
 			case "pointUpdate":
 				ps := ofType("probe")
